@@ -1,5 +1,5 @@
 CONSTANTS
- NPal = 16
+ NPal = 18
  MaxLen = 3
  DecIdx = {1, 2, 3, 4, 5, 6, 7, 8}
  CoefIdx = {1, 3, 4, 5, 6}
